@@ -110,6 +110,12 @@ func solve(name, smt string, getValues []string, timeoutS int, wantAll bool) Sol
 			case strings.HasPrefix(first, "(error") || strings.Contains(first, "rror"):
 				st = "error"
 			}
+			if (st == "unsat" || st == "sat") && strings.Contains(text, "(error") && !strings.Contains(text, "model is not available") {
+				st = "error"
+			}
+			if strings.Contains(text, "unknown constant") || strings.Contains(text, "is not declared") {
+				st = "error"
+			}
 			if os.Getenv("SCTPVC_KEEP") == "" {
 				os.Remove(file)
 			}
